@@ -152,6 +152,30 @@ class SymReal:
             return NotImplemented
         return _div(ot, self.t)
 
+    def __mod__(self, o):
+        """Python float modulo: x - m*floor(x/m) (sign of the divisor)"""
+        from . import symmath
+
+        if _other(o) is None:
+            return NotImplemented
+        q = self / o  # forks on a zero divisor like Python (ZeroDivisionError)
+        return self - o * symmath.floor(q)
+
+    def __rmod__(self, o):
+        from . import symmath
+
+        if _other(o) is None:
+            return NotImplemented
+        q = o / self
+        return o - self * symmath.floor(q)
+
+    def __floordiv__(self, o):
+        from . import symmath
+
+        if _other(o) is None:
+            return NotImplemented
+        return symmath.floor(self / o)
+
     def __neg__(self):
         return SymReal(-self.t)
 
